@@ -72,6 +72,8 @@ pub fn exec(zk: &dyn Zk, b: &Base, c: &Value) -> O<()> {
         "blind_proof_verify_bytes" => zk.blind_proof_verify(&k.pk, &bytes, h, ph, Some(2), Some(&b.bmsgs[..1]), Some(&b.bcms[..1]), Some(&[0]), Some(&[0])),
         "proof_verify_bytes_nodisclosure" => zk.proof_verify(&k.pk, &bytes, h, ph, if c["none"] == true { None } else { Some(&[]) }, if c["none"] == true { None } else { Some(&[]) }),
         "blind_proof_verify_bytes_nodisclosure" => zk.blind_proof_verify(&k.pk, &bytes, h, ph, if c["none"] == true { None } else { Some(0) }, None, None, None, None),
+        "update_signature_sig" => unit(zk.update_signature(&k.sk, &bytes, &b.msgs[0], b"new", 0, b.msgs.len())),
+        "verify_sig" => zk.verify(&k.pk, &bytes, h, Some(&b.msgs)),
         "json_use" => zk.use_json(kind_of(c["kind"].as_str().unwrap_or("")), c["j"].as_str().unwrap_or(""), &k.pk, h, ph, Some(&b.msgs)),
         "json" => unit(zk.octets_of_json(kind_of(c["kind"].as_str().unwrap_or("")), c["j"].as_str().unwrap_or(""))),
         "proof_gen_idx" => unit(zk.proof_gen(&k.pk, &b.sig, h, ph, Some(&take(&b.msgs, us(&c["nm"]))), Some(&usv(&c["idx"])))),
